@@ -168,6 +168,11 @@ pub fn exec(song: &mut Song, tokens: &Vec<Token>) -> bool {
             },
             TokenType::Track => {
                 let no = exec_value_int_by_token(song, t) as usize;
+                // a pending octave-once (` or ") belongs to the track it was written on
+                if song.flags.octave_once != 0 {
+                    trk!(song).octave = trk!(song).octave - song.flags.octave_once;
+                    song.flags.octave_once = 0;
+                }
                 song.change_cur_track(no);
             },
             TokenType::Channel => {
